@@ -61,11 +61,42 @@ func digestBytes(b []byte) string { return fmt.Sprintf("%d:%016x", len(b), stats
 func c18DrawItem(rt *rapid.T, i int) *c18Item {
 	label := fmt.Sprintf("item%d", i)
 	v := gen.Version(rt)
-	kind := rapid.IntRange(0, 9).Draw(rt, label+"/kind")
+	kind := rapid.IntRange(0, 10).Draw(rt, label+"/kind")
 	if kind == 8 && !gen.AtLeast(v, 3) {
 		kind = 4
 	}
 	switch kind {
+	case 10: // a large compressed frame: bodies of 64 KiB and more, of a size of their own, on the shared codec
+		comp := rapid.SampledFrom([]compKind{compLz4, compLz4, compSnappy}).Draw(rt, label+"/comp")
+		if v == primitive.ProtocolVersion5 {
+			comp = compLz4
+		}
+		// all-equal, short-period or random content: no repeat at a distance of 64 KiB or more, so the open LZ4 dependency
+		// finding (DEP-lz4-offset-wrap-65536) cannot strike
+		class := rapid.SampledFrom([]int{0, 1, 3}).Draw(rt, label+"/class")
+		if comp == compLz4 && class == 3 {
+			class = 1 // random letters repeat 4-grams at every distance
+		}
+		size := rapid.IntRange(65536, 150000).Draw(rt, label+"/size")
+		q := gen.Expand(class, rapid.Uint64().Draw(rt, label+"/seed"), size)
+		for j := range q { // a [long string] of printable ASCII
+			q[j] = 'a' + q[j]%26
+		}
+		codec := sharedFrame[comp]
+		f := frame.NewFrame(v, int16(i%100+1), &message.Query{Query: string(q)})
+		f.SetCompress(true)
+		return &c18Item{name: "large-frame/" + comp.String(), run: func() (string, error) {
+			enc, err := encodeFrame(codec, f.DeepCopy())
+			if err != nil {
+				return "", err
+			}
+			dec, err := codec.DecodeFrame(bytes.NewReader(enc))
+			if err != nil {
+				return "", err
+			}
+			dec.Header.BodyLength = 0
+			return fmt.Sprintf("%s/%016x", digestBytes(enc), canon.Hash(dec)), nil
+		}}
 	case 9: // a header the shared codec must refuse; what the error SAYS belongs to this call (version, flags)
 		hv := rapid.SampledFrom([]byte{0x00, 0x01, 0x06, 0x07, 0x21, 0x40, 0x43, 0x7f}).Draw(rt, label+"/badVersion")
 		resp := rapid.Bool().Draw(rt, label+"/response")
@@ -207,7 +238,15 @@ func c18DrawItem(rt *rapid.T, i int) *c18Item {
 		}}
 	case 2: // segment
 		lz := rapid.Bool().Draw(rt, label+"/lz4")
-		payload := gen.Expand(rapid.IntRange(0, 3).Draw(rt, label+"/class"), rapid.Uint64().Draw(rt, label+"/seed"), rapid.IntRange(0, 20000).Draw(rt, label+"/len"))
+		plen := rapid.IntRange(0, 20000).Draw(rt, label+"/len")
+		pclass := rapid.IntRange(0, 3).Draw(rt, label+"/class")
+		if rapid.IntRange(0, 3).Draw(rt, label+"/big") == 0 {
+			plen = rapid.IntRange(32769, 131071).Draw(rt, label+"/bigLen") // beyond the block size a chunked checksum would use
+			if pclass == 2 {
+				pclass = 1 // no text above 64 KiB under LZ4 (open dependency finding)
+			}
+		}
+		payload := gen.Expand(pclass, rapid.Uint64().Draw(rt, label+"/seed"), plen)
 		sc := rapid.Bool().Draw(rt, label+"/sc")
 		codec := sharedSegment[lz]
 		return &c18Item{name: fmt.Sprintf("segment/lz4=%v", lz), run: func() (string, error) {
